@@ -5,7 +5,7 @@
    Soundness of the abstract executor w.r.t. the concrete semantics is proved in MachineProofs.v.
    Definitions only - no proofs in this file. *)
 From Coq Require Import ZArith List Bool String.
-Require Import UV.C01.Isa.
+Require Import UV.C01.Isa UV.Gen.Stubs UV.C01.ArchCtx.
 Import ListNotations.
 Local Open Scope Z_scope.
 
@@ -25,6 +25,20 @@ Definition callee_saved (r : reg) : bool :=
 Definition may_write (f : string) : bool :=
   (String.eqb f "mcount_entry" || String.eqb f "plthook_entry")%bool.
 
+(* What a hook call does to the xmm registers.
+   - the six C wrappers (hook_wrappers, GENERATED from the C text of the current tree) bracket the hook
+     body with mcount_save_arch_context / mcount_restore_arch_context: whatever the body and the libc
+     functions it calls do, xmm0-7 go through the generated pair (ArchCtx.v); xmm8-15 are left to them;
+   - mcount_find_code is a leaf of libmcount (hash lookup, built with -mgeneral-regs-only, no libc):
+     assumed to leave all xmm registers alone (monitored by the objdump check, not proved);
+   - any other callee: nothing is assumed. *)
+Definition xmm_wrapped (f : string) : bool :=
+  match find (fun p => String.eqb (fst p) f) hook_wrappers with
+  | Some (_, (b, _)) => b
+  | None => false
+  end.
+Definition xmm_leaf (f : string) : bool := String.eqb f "mcount_find_code".
+
 (* ------------------------------------------------------------------ concrete semantics *)
 (* Everything the environment may choose: what the n-th hook call leaves in the caller-saved
    registers, in the memory it may write, in ZF; and the contents of libmcount globals. *)
@@ -32,8 +46,15 @@ Record world := {
   w_regs : nat -> reg -> Z;
   w_mem : nat -> Z -> Z;
   w_zf : nat -> bool;
-  w_glob : string -> nat -> Z
+  w_glob : string -> nat -> Z;
+  w_xmm : nat -> nat -> Z * Z;      (* what the n-th hook body (and the libc code it runs) leaves in xmm<i> *)
+  w_ctx : nat -> Z -> Z             (* garbage in the wrapper's context buffer before the save *)
 }.
+
+Definition c_call_xmm (W : world) (f : string) (n : nat) (x : nat -> Z * Z) : nat -> Z * Z :=
+  if xmm_leaf f then x
+  else if xmm_wrapped f then arch_roundtrip_now x (w_ctx W n) (w_xmm W n)
+  else w_xmm W n.
 
 Record cstate := {
   cr : reg -> Z;              (* general registers (words as integers; pointer arithmetic exact) *)
@@ -70,15 +91,15 @@ Definition c_fault (s : cstate) : cstate :=
 
 Definition aligned8 (a : Z) : bool := a mod 8 =? 0.
 
-(* `call f`: the stack must be 16-byte aligned; afterwards callee-saved registers, rsp, all xmm
-   registers and every memory cell at or above the caller's rsp are as before - except the one
-   cell the hook was handed in %rdi if it is a slot-hijacking hook; everything else (caller-saved
-   registers, flags, memory below rsp) is whatever the environment chooses. *)
+(* `call f`: the stack must be 16-byte aligned; afterwards callee-saved registers, rsp and every
+   memory cell at or above the caller's rsp are as before - except the one cell the hook was handed
+   in %rdi if it is a slot-hijacking hook; xmm registers as [c_call_xmm] says; everything else
+   (caller-saved registers, flags, memory below rsp) is whatever the environment chooses. *)
 Definition c_call (W : world) (f : string) (s : cstate) : cstate :=
   let p := cr s RSP in
   if p mod 16 =? 0 then
     {| cr := fun r => if callee_saved r then cr s r else w_regs W (cn s) r;
-       cx := cx s;
+       cx := c_call_xmm W f (cn s) (cx s);
        cm := fun a => if ((a <? p) || (may_write f && (a =? cr s RDI)))%bool then w_mem W (cn s) a else cm s a;
        czf := w_zf W (cn s); cn := S (cn s); cskip := cskip s; cend := cend s; cfault := cfault s |}
   else c_fault s.
@@ -136,7 +157,8 @@ Inductive val :=
 | VHav (n : nat) (r : reg)      (* what the n-th hook call left in r (r = rax: its return value) *)
 | VCell (n : nat) (o : Z)       (* what the n-th hook call left in the cell at rsp0 + o *)
 | VGlob (g : string) (n : nat)  (* libmcount global g read after n calls *)
-| VXlo (x : nat) | VXhi (x : nat).  (* halves of xmm<x> on entry *)
+| VXlo (x : nat) | VXhi (x : nat)   (* halves of xmm<x> on entry *)
+| VXC (n : nat) (x : nat) (hi : bool). (* what the n-th hook call left in a half of xmm<x> *)
 
 Definition val_eqb (a b : val) : bool :=
   match a, b with
@@ -149,6 +171,7 @@ Definition val_eqb (a b : val) : bool :=
   | VGlob g n, VGlob g' n' => String.eqb g g' && Nat.eqb n n'
   | VXlo x, VXlo x' => Nat.eqb x x'
   | VXhi x, VXhi x' => Nat.eqb x x'
+  | VXC n x h, VXC n' x' h' => Nat.eqb n n' && Nat.eqb x x' && Bool.eqb h h'
   | _, _ => false
   end.
 
@@ -164,6 +187,7 @@ Definition den (W : world) (regs0 : reg -> Z) (xmm0 : nat -> Z * Z) (mem0 : Z ->
   | VGlob g n => w_glob W g n
   | VXlo x => fst (xmm0 x)
   | VXhi x => snd (xmm0 x)
+  | VXC n x h => if h then snd (w_xmm W n x) else fst (w_xmm W n x)
   end.
 
 (* what a run of the abstract executor assumes about the concrete run it stands for *)
@@ -230,6 +254,11 @@ Definition a_load (P : params) (a : astate) (o : Z) : option val :=
          end
   end.
 
+Definition a_call_xmm (f : string) (n : nat) (x : nat -> val * val) : nat -> val * val :=
+  if xmm_leaf f then x
+  else if xmm_wrapped f then fun i => if Nat.ltb i 8 then x i else (VXC n i false, VXC n i true)
+  else fun i => (VXC n i false, VXC n i true).
+
 Definition a_call (P : params) (f : string) (a : astate) : astate :=
   match ar a RSP with
   | VPtr p =>
@@ -237,7 +266,7 @@ Definition a_call (P : params) (f : string) (a : astate) : astate :=
       let n := an a in
       let m1 := filter (fun e => p <=? fst e) (am a) in
       let mk m := {| ar := fun r => if callee_saved r then ar a r else VHav n r;
-                     ax := ax a; am := m;
+                     ax := a_call_xmm f n (ax a); am := m;
                      ahi := Some (match ahi a with None => p | Some h => Z.max h p end);
                      azf := None; an := S n; askip := askip a; aend := aend a; aok := aok a |} in
       if may_write f then
@@ -361,7 +390,8 @@ Record spec := {
   s_allowed : list Z      (* ... except these offsets (the hijacked return-address slot) *)
 }.
 
-Definition xmm_regs : list nat := seq 0 16.
+(* the xmm registers that carry arguments and return values *)
+Definition xmm_regs : list nat := seq 0 8.
 
 Definition check_final (P : params) (sp : spec) (a : astate) : bool :=
   aok a
@@ -415,8 +445,8 @@ Definition spec_plt_direct : spec :=
 
 (* ------------------------------------------------------------------ the guarantee, concretely *)
 (* What [spec] promises about EVERY concrete run of a stub from (regs, xmm, mem, zf) in world W:
-   no fault; control leaves to the stated target; the listed registers, rsp (shifted), all sixteen
-   xmm registers and every memory cell from rsp0 + s_memfrom upwards - except the hijacked slot(s) -
+   no fault; control leaves to the stated target; the listed registers, rsp (shifted), xmm0-7 (the
+   argument/return registers) and every memory cell from rsp0 + s_memfrom upwards - except the hijacked slot(s) -
    hold their entry values. *)
 Definition stub_guarantee (W : world) (regs : reg -> Z) (xmm : nat -> Z * Z) (mem : Z -> Z) (zf : bool)
            (ext : option val) (sp : spec) (prog : list insn) : Prop :=
@@ -425,7 +455,7 @@ Definition stub_guarantee (W : world) (regs : reg -> Z) (xmm : nat -> Z * Z) (me
   cend c = Some (den W regs xmm mem (s_target sp)) /\
   (forall r, In r (s_pres sp) -> cr c r = regs r) /\
   cr c RSP = regs RSP + s_rsp sp /\
-  (forall x, (x < 16)%nat -> cx c x = xmm x) /\
+  (forall x, (x < 8)%nat -> cx c x = xmm x) /\
   (forall o, s_memfrom sp <= o -> ~ In o (s_allowed sp) ->
              (forall e, ext = Some e -> regs RSP + o <> den W regs xmm mem e) ->
              cm c (regs RSP + o) = mem (regs RSP + o)).
